@@ -135,6 +135,12 @@ func (s *segment) setupIndex() (err error) {
 			return err
 		}
 	}
+	// After a crash the log can hold message sets which were written but not
+	// indexed yet. Index them so the log and the index agree again.
+	lastEntry, err = s.indexUnindexedTail(lastEntry)
+	if err != nil {
+		return errors.Wrap(err, "failed to index unindexed log data")
+	}
 	// If lastEntry is nil, the index is empty.
 	if lastEntry != nil {
 		s.lastOffset = lastEntry.Offset
@@ -148,6 +154,60 @@ func (s *segment) setupIndex() (err error) {
 		s.firstWriteTime = firstEntry.Timestamp
 	}
 	return nil
+}
+
+// indexUnindexedTail adds index entries for complete message sets in the log
+// which follow the last indexed one, e.g. because the process died between
+// writing the log and writing the index. Anything left after them, i.e. a
+// partial message set, is removed from the log. It returns the last index
+// entry.
+func (s *segment) indexUnindexedTail(lastEntry *entry) (*entry, error) {
+	var pos int64
+	if lastEntry != nil {
+		pos = lastEntry.Position + int64(lastEntry.Size)
+	}
+	if pos >= s.position {
+		return lastEntry, nil
+	}
+	headerBuf := make([]byte, msgSetHeaderLen)
+	for pos < s.position {
+		n, err := s.log.ReadAt(headerBuf, pos)
+		if err != nil && err != io.EOF {
+			return nil, err
+		}
+		if n < msgSetHeaderLen {
+			break
+		}
+		var (
+			ms   = messageSet(headerBuf)
+			size = ms.Size()
+		)
+		if size < 0 || pos+msgSetHeaderLen+int64(size) > s.position {
+			break
+		}
+		if lastEntry != nil && ms.Offset() <= lastEntry.Offset {
+			break
+		}
+		e := &entry{
+			Offset:      ms.Offset(),
+			Timestamp:   ms.Timestamp(),
+			LeaderEpoch: ms.LeaderEpoch(),
+			Position:    pos,
+			Size:        size + msgSetHeaderLen,
+		}
+		if err := s.Index.writeEntries([]*entry{e}); err != nil {
+			return nil, err
+		}
+		lastEntry = e
+		pos += msgSetHeaderLen + int64(size)
+	}
+	if pos < s.position {
+		if err := s.log.Truncate(pos); err != nil {
+			return nil, err
+		}
+		s.position = pos
+	}
+	return lastEntry, nil
 }
 
 // rebuildIndex rebuilds the index by scanning the log file.
